@@ -1,6 +1,158 @@
+import GrafeoModel.Model.Algo2
+import GrafeoModel.Driver.Algo
 import GrafeoModel.Driver.Proto
-/-! stream `alg2` (stub; replaced by its builder) -/
-open Grafeo Grafeo.Proto
+/-!
+Stream `alg2` (C19): the executable models of the algorithms' own loops (`Model/Algo2.lean`).
+
+  alg2 <op> <n> <edges> [<source>]     edges = `u>v:w,…` or `-`; nodes are `0 .. n-1`
+  alg2 uf <n> <script>                 script = `u.x.y,f.x,c.x.y,…` on `UnionFind::new(n)`
+
+`model` is what the model of the code computes, printed as the harness prints the real result.
+`spec = model` only when the proved-sound checker of `Model/Graph.lean` accepts the model's result
+(`checker-rejects` otherwise), so a line where impl = model = spec says: the real output is the
+output of the model, and that output is correct by a theorem of `Props/C19.lean`.
+
+  bfs          discovery order              checkReachOrder on the order itself
+  bfs.layers   layers                       checkSssp over unit weights on (node, layer index)
+  dfs          post-order                   same set as the certified BFS order, no duplicates
+  wcc          component id per node        checkWcc on the classes (certificate: model BFS over sym)
+  topo         valid / none                 checkTopo on the model's order / checkCycle
+  kruskal      chosen edges / total         checkSpanning + executable cycle property
+  dijkstra, bellman_ford   distance map     checkSssp / checkNegCycle
+  uf           script results               (`-`: the theorems of Props/C19Algo.lean speak for it)
+-/
+open Grafeo Grafeo.Proto Grafeo.Graph Grafeo.Algo2
 namespace DriverAlgo2
-def handle (_args : List String) : Option Out := none
+open Grafeo.DriverAlgo (parseEdges showDist sortNat wellFormed certified mk ssspOrder conn reachOrder cycleVia)
+
+def showList (l : List Nat) : String := if l.isEmpty then "-" else natList l
+
+def showEdges (t : List Edge) : String :=
+  if t.isEmpty then "-" else joinWith "," (t.map fun e => s!"{e.1}>{e.2.1}:{e.2.2}")
+
+/-- the classes of a labelling (entry `i` = label of node `i`), each class certified by a model BFS
+over the symmetrised edges from its least element -/
+def classesOf (es : List Edge) (n : Nat) (lab : List Nat) : List (List Nat) × Bool :=
+  let ids := (lab.foldl (fun acc c => if acc.contains c then acc else acc ++ [c]) [])
+  let cls := ids.map fun c => (List.range n).filter fun v => lab.getD v n == c
+  let cert := cls.map fun c => match c with
+    | [] => []
+    | r :: _ => bfs n (sym es) r
+  (cert, (cls.zip cert).all fun p => sortNat p.1 == sortNat p.2)
+
+def arrOf (n : Nat) (r : List (Nat × Int)) : Array (Option Int) :=
+  r.foldl (fun a q => a.setIfInBounds q.1 (some q.2)) (Array.replicate n none)
+
+/-- a closed chain of edges found by walking predecessor edges backwards (unverified search; the
+result goes through `checkCycle`) -/
+def findCycle (es : List Edge) (n : Nat) : List Edge :=
+  -- nodes that still have an in-edge from the remaining set after peeling sources n times
+  let rem := Grafeo.DriverAlgo.iter (fun (rem : List Nat) =>
+    rem.filter fun v => es.any fun e => e.2.1 == v && rem.contains e.1) n (List.range n)
+  match rem with
+  | [] => []
+  | v :: _ => cycleVia (fun x => es.find? fun e => e.2.1 == x && rem.contains e.1) n v
+
+def runUf (n : Nat) (ops : List String) : Option String :=
+  let rec go (u : UF) (ops : List String) (acc : List String) : Option (Option (List String)) :=
+    match ops with
+    | [] => some (some acc)
+    | op :: rest =>
+      match op.splitOn "." with
+      | ["u", x, y] =>
+        match x.toNat?, y.toNat? with
+        | some x, some y =>
+          if x < n && y < n then
+            let r := u.union x y
+            go r.1 rest (acc ++ [if r.2 then "t" else "f"])
+          else some none
+        | _, _ => none
+      | ["c", x, y] =>
+        match x.toNat?, y.toNat? with
+        | some x, some y =>
+          if x < n && y < n then
+            let r := u.connected x y
+            go r.1 rest (acc ++ [if r.2 then "t" else "f"])
+          else some none
+        | _, _ => none
+      | ["f", x] =>
+        match x.toNat? with
+        | some x =>
+          if x < n then
+            let r := u.find x
+            go r.1 rest (acc ++ [toString r.2])
+          else some none
+        | none => none
+      | _ => none
+  -- the real code validates the whole script lazily: a malformed op after a panic is never seen
+  match go (UF.new n) ops [] with
+  | none => none
+  | some none => some "panic"
+  | some (some acc) => some (if acc.isEmpty then "-" else joinWith "," acc)
+
+def handle (args : List String) : Option Out :=
+  match args with
+  | ["uf", n, script] => do
+    let n ← n.toNat?
+    let ops := if script == "-" then [] else script.splitOn ","
+    let r ← runUf n ops
+    pure { model := r }
+  | [op, n, edges] => do
+    let n ← n.toNat?
+    let es ← parseEdges edges
+    if !wellFormed es n then none
+    else if op == "wcc" then
+      let lab := connectedComponents n es
+      let c := classesOf es n lab
+      pure (certified (showList lab) (lab.length == n && c.2 && checkWcc es n c.1))
+    else if op == "topo" then
+      match kahn n es with
+      | some o => pure (certified "valid" (checkTopo es n o))
+      | none => pure (certified "none" (checkCycle es (findCycle es n)))
+    else if op == "kruskal" then
+      let r := kruskal n es
+      let c := classesOf r.1 n (connectedComponents n r.1)
+      pure (certified (showEdges r.1 ++ "/" ++ toString r.2)
+        (r.2 == totalWeight r.1 && c.2 && checkSpanning es n r.1 c.1 && checkCycleProperty conn es r.1))
+    else none
+  | [op, n, edges, src] => do
+    let n ← n.toNat?
+    let es ← parseEdges edges
+    let s ← src.toNat?
+    if !wellFormed es n then none
+    else if op == "bfs" then
+      let o := bfs n es s
+      pure (if s < n then certified (showList o) (checkReachOrder es s o) else { model := showList o })
+    else if op == "bfs.layers" then
+      let ls := bfsLayers n es s
+      let m := if ls.isEmpty then "-" else joinWith "|" (ls.map showList)
+      let r : List (Nat × Int) := ((List.range ls.length).zip ls).flatMap fun p => p.2.map fun v => (v, Int.ofNat p.1)
+      pure (if s < n then certified m (checkSssp (unit es) s r) else { model := m })
+    else if op == "dfs" then
+      let o := dfs n es s
+      let b := bfs n es s
+      pure (if s < n then certified (showList o) (checkReachOrder es s b && sortNat o == sortNat b)
+        else { model := showList o })
+    else if op == "dijkstra" then
+      if es.any fun e => e.2.2 < 0 then none
+      else
+        match dijkstra n es s with
+        | none => pure { model := "out-of-fuel" }
+        | some r =>
+          pure (if s < n then certified (showDist r) (checkSssp es s (ssspOrder es s (arrOf n r)) &&
+              showDist r == showDist (ssspOrder es s (arrOf n r)))
+            else { model := showDist r })
+    else if op == "bellman_ford" then
+      let r := bellmanFord n es s
+      if s ≥ n then pure { model := showDist r.1 }
+      else if r.2 then
+        -- a still-relaxable edge: certify a reachable negative cycle with the reference search
+        match Grafeo.DriverAlgo.ssspRef es n s with
+        | .neg order cyc => pure (certified "negcycle" (checkNegCycle es s order cyc))
+        | .dist _ => pure (certified "negcycle" false)
+      else
+        pure (certified (showDist r.1) (checkSssp es s (ssspOrder es s (arrOf n r.1)) &&
+          showDist r.1 == showDist (ssspOrder es s (arrOf n r.1))))
+    else none
+  | _ => none
 end DriverAlgo2
